@@ -413,7 +413,7 @@ Record GInv (now : Z) (c : cache) : Prop := {
            sorted (e_trig e) /\ e_trig e <> [] /\ forall x, In x (e_trig e) -> x <= now + LIMIT;
   g_timer : c_timer c = c_next c;
   g_next : match c_next c with
-           | Some n => now < n /\ forall e, In e (c_entries c) -> forall x, In x (e_trig e) -> n <= x
+           | Some n => now <= n /\ forall e, In e (c_entries c) -> forall x, In x (e_trig e) -> n <= x
            | None => c_entries c = []
            end }.
 
@@ -474,7 +474,7 @@ Proof.
     + destruct (fold_left min_opt (firsts es1) None) as [n|] eqn:F.
       * destruct FM as (F1 & _ & [F3|F3]); [|discriminate]. split.
         -- apply In_firsts in F3 as (e' & rest & He' & Et). destruct (Hwf1 e' He') as (_ & _ & _ & D).
-           apply D. rewrite Et. left; reflexivity.
+           apply Z.lt_le_incl, D. rewrite Et. left; reflexivity.
         -- intros e' He' x Hx. destruct (Hwf1 e' He') as (S1 & S2 & _).
            destruct (e_trig e') as [|t rest] eqn:Et; [congruence|].
            assert (n <= t) by (apply F1, In_firsts; eauto).
@@ -639,7 +639,8 @@ Theorem fire_exact_spec : forall fuel now c t r,
   GInv t (fst (fire_exact fuel t c)) /\
   c_entries (fst (fire_exact fuel t c)) = filter_map (trim_upto t) (c_entries c) /\
   sigs_for r (snd (fire_exact fuel t c)) =
-    match stored r (c_entries c) with Some e => expect (e_rec e) (e_trig e) t | None => [] end.
+    match stored r (c_entries c) with Some e => expect (e_rec e) (e_trig e) t | None => [] end /\
+  match c_next (fst (fire_exact fuel t c)) with Some n => t < n | None => True end.
 Proof.
   induction fuel as [|f IH]; intros now c t r G Hf Hnt.
   - exfalso. destruct Hf as [Hf|[_ Hf]]; lia.
@@ -653,11 +654,11 @@ Proof.
         { right. split; [exact F4|]. rewrite F1. destruct Hf as [Hf|[Ha Hf]].
           - pose proof (total_trim d (c_entries c)). lia.
           - unfold attained in Ha. rewrite Hn in Ha. pose proof (total_trim_strict d (c_entries c) Ha). lia. }
-        specialize (IH d c1 t r F3 Hf1 ltac:(lia)). destruct IH as (I1 & I2 & I3).
+        specialize (IH d c1 t r F3 Hf1 ltac:(lia)). destruct IH as (I1 & I2 & I3 & I4).
         destruct (fire_exact f t c1) as [c2 o] eqn:FE. cbn [fst snd] in *.
         assert (Hewf : forall e, In e (c_entries c) -> ewf d e).
         { intros e He. destruct (Hwf e He) as (H1 & H2 & H3). split; [exact H1|]. split; [exact H2|]. intros x Hx. apply (Hlow e He x Hx). }
-        split; [exact I1|]. split.
+        split; [exact I1|]. split; [|split; [|exact I4]].
         -- rewrite I2, F1, filter_map_filter_map. apply filter_map_ext_in. intros e He.
            apply trim_upto_after_trim1; [apply Hewf, He|lia].
         -- unfold sigs_for. rewrite filter_map_app. fold (sigs_for r (map (fun s => OSig d (fst s) (snd s)) sg)).
@@ -674,7 +675,7 @@ Proof.
            ++ assert (x = d) by lia. subst x. cbn [expect]. replace (d <=? t) with true by lia.
               destruct rest as [|x1 rest']; [reflexivity|]. cbn [e_rec e_trig app]. reflexivity.
            ++ cbn [e_rec e_trig app]. reflexivity.
-      * cbn [fst snd]. split; [|split].
+      * cbn [fst snd]. split; [|split; [|split; [|rewrite Hn; lia]]].
         -- constructor; [exact Hei| |rewrite Hn; exact Htm|].
            ++ intros e He. destruct (Hwf e He) as (H1 & H2 & H3). repeat split; auto. intros x Hx. specialize (H3 x Hx). lia.
            ++ rewrite Hn. split; [lia|exact Hlow].
@@ -687,7 +688,7 @@ Proof.
            { clear -St. induction (c_entries c) as [|x l IHl]; [discriminate|]. cbn [stored] in St.
              destruct (same_data (e_rec x) r); [injection St as <-; left; reflexivity|right; auto]. }
            symmetry. apply expect_above. intros x Hx. specialize (Hlow e He x Hx). lia.
-    + cbn [fst snd]. rewrite Hnx. cbn [filter_map stored sigs_for]. split; [|auto].
+    + cbn [fst snd]. rewrite Hnx. cbn [filter_map stored sigs_for]. split; [|rewrite Hn; auto].
       constructor; [exact Hei| |rewrite Hn; exact Htm|].
       * rewrite Hnx. intros e [].
       * rewrite Hn. exact Hnx.
@@ -889,10 +890,19 @@ Definition wf_op (o : cop) : Prop :=
 Lemma GInv_empty : GInv 0 empty_cache.
 Proof. constructor; cbn; auto. split; [intros e []|exact I]. intros e []. Qed.
 
+(* whole milliseconds: nothing is due strictly between t - 1 and t *)
+Lemma GInv_tick t c :
+  GInv (t - 1) c -> match c_next c with Some n => t - 1 < n | None => True end -> GInv t c.
+Proof.
+  intros [G1 G2 G3 G4] Lt. constructor; auto.
+  - intros e He. destruct (G2 e He) as (A & B & C). repeat split; auto. intros x Hx. specialize (C x Hx). lia.
+  - destruct (c_next c) as [n|]; [|exact G4]. destruct G4 as [A B]. split; [lia|exact B].
+Qed.
+
 Lemma cstep_GInv st o :
   GInv (fst st) (snd st) -> wf_op o -> GInv (fst (fst (cstep st o))) (snd (fst (cstep st o))).
 Proof.
-  destruct st as [now c]. cbn [fst snd]. intros G W. destruct o as [r j|t|t|n ty]; cbn [cstep].
+  destruct st as [now c]. cbn [fst snd]. intros G W. destruct o as [r j|t|t|t|n ty]; cbn [cstep].
   - destruct W as [W1 W2]. pose proof jitter_bound_ok.
     pose proof (add_preserves_GInv now j r c G W1 ltac:(lia)) as G'.
     destruct (add now j r c) as [c' sg]. exact G'.
@@ -901,6 +911,11 @@ Proof.
     destruct (fire_exact_spec (S (S (total_triggers c))) now c t default_record G Hf ltac:(lia)) as (G' & _).
     destruct (fire_exact (S (S (total_triggers c))) t c) as [c' o]. exact G'.
   - destruct W.
+  - destruct (t <=? now) eqn:E; [exact G|].
+    assert (Hf : fuel_ok c (S (S (total_triggers c)))) by (left; rewrite total_is; lia).
+    destruct (fire_exact_spec (S (S (total_triggers c))) now c (t - 1) default_record G Hf ltac:(lia)) as (G' & _ & _ & Lt).
+    destruct (fire_exact (S (S (total_triggers c))) (t - 1) c) as [c' o]. cbn [fst snd] in *.
+    apply GInv_tick; assumption.
   - exact G.
 Qed.
 
@@ -917,6 +932,22 @@ Proof.
   inversion W as [|? ? W1 W2]; subst. apply IH; [|exact W2]. apply cstep_GInv; assumption.
 Qed.
 
+(* the advance that leaves what is due exactly at t pending: everything strictly before t has happened,
+   the entries are those of an exact advance to t - 1, and the clock reads t *)
+Theorem cadvb_spec now c t r :
+  GInv now c -> now < t ->
+  let res := cstep (now, c) (CAdvB t) in
+  fst (fst res) = t /\ GInv t (snd (fst res)) /\
+  c_entries (snd (fst res)) = filter_map (trim_upto (t - 1)) (c_entries c) /\
+  sigs_for r (snd res) = match stored r (c_entries c) with Some e => expect (e_rec e) (e_trig e) (t - 1) | None => [] end.
+Proof.
+  intros G Hnt. cbn [cstep]. replace (t <=? now) with false by lia.
+  assert (Hf : fuel_ok c (S (S (total_triggers c)))) by (left; rewrite total_is; lia).
+  destruct (fire_exact_spec (S (S (total_triggers c))) now c (t - 1) r G Hf ltac:(lia)) as (G' & E & Sg & Lt).
+  destruct (fire_exact (S (S (total_triggers c))) (t - 1) c) as [c' o]. cbn [fst snd] in *.
+  split; [reflexivity|]. split; [apply GInv_tick; assumption|]. auto.
+Qed.
+
 (* the advance operation of a script, in closed form *)
 Theorem cadv_spec now c t r :
   GInv now c -> now <= t ->
@@ -927,6 +958,6 @@ Theorem cadv_spec now c t r :
 Proof.
   intros G Hnt. cbn [cstep]. replace (t <? now) with false by lia.
   assert (Hf : fuel_ok c (S (S (total_triggers c)))) by (left; rewrite total_is; lia).
-  destruct (fire_exact_spec (S (S (total_triggers c))) now c t r G Hf Hnt) as (G' & E & Sg).
+  destruct (fire_exact_spec (S (S (total_triggers c))) now c t r G Hf Hnt) as (G' & E & Sg & _).
   destruct (fire_exact (S (S (total_triggers c))) t c) as [c' o]. cbn [fst snd] in *. auto.
 Qed.
